@@ -56,6 +56,10 @@ bool ops_image(Ctx& c, const json& s, int idx, bool& handled) {
 			{ const std::string p = via_path("via_out.tset"); if (throws([&] { Tileset::WriteCustomTileset(Stream::FileWriter(p), b); }) || Scen::slurp(p) != dyn_bytes(w)) { Proto::mismatch(site + sub, "entry-points-differ", where("WriteCustomTileset to a temporary file writer")); return false; } }
 			if (dyn_bytes(w) != custom) { Proto::mismatch(site + sub, "custom-bytes", where(Scen::hexdiff(dyn_bytes(w), custom))); return false; } }
 		return true; }
+	if (op == "tileset_bad" && s.contains("custom")) { auto src = raw(s["custom"]);         // a custom-format file that is not a tileset: refused by the detecting and by the custom-format loader
+		{ Stream::MemoryReader r(src.data(), src.size()); if (!throws([&] { Tileset::ReadTileset(r); })) { Proto::mismatch(site + "/load", "accepted-should-refuse", where("custom-format file, header word altered")); return false; } }
+		{ Stream::MemoryReader r(src.data(), src.size()); if (!throws([&] { Tileset::ReadCustomTileset(r); })) { Proto::mismatch(site + "/load-custom", "accepted-should-refuse", where("custom-format file, header word altered")); return false; } }
+		return true; }
 	if (op == "tileset_bad") { auto src = raw(s["bmp"]); Stream::MemoryReader r(src.data(), src.size()); if (!throws([&] { Tileset::ReadTileset(r); })) { Proto::mismatch(site + "/load", "accepted-should-refuse", where("")); return false; }
 		{ Stream::MemoryReader rc(src.data(), src.size()); if (!throws([&] { Tileset::ReadCustomTileset(rc); })) { Proto::mismatch(site + "/load-custom", "accepted-should-refuse", where("the custom-format loader accepted a standard bitmap")); return false; } }
 		BitmapFile b = bmp_from(src); Stream::DynamicMemoryWriter w; if (!throws([&] { Tileset::WriteCustomTileset(w, b); })) { Proto::mismatch(site + "/save", "accepted-should-refuse", where("")); return false; } return true; }
